@@ -491,6 +491,10 @@ def oracle(case, obs):
             # the pending backup travels with the copy, with equal content
             if (new["bk"] is None) != (src["bk"] is None) or (new["bk"] and new["bk"][1] != src["bk"][1]):
                 add("copy-backup-differs", f"{where}: pending backup of the copy differs from the original one")
+            # ... and describes the copy: reverting the copy must keep the copy's fresh id
+            if new["bk"] is not None and new["bk"][0] != new["st"][0]:
+                add("copy-revert-restores-original-id",
+                    f"{where}: the saved state of the copy carries the id of the original; reverting the copy gives it that id")
             snap.append(None if new["bk"] is None else (new["bk"][0], new["bk"][1]))
         elif len(cur) != len(prev):
             add("store-size", where); break
